@@ -281,7 +281,21 @@ theorem layer_frozen (l : Layer) : l.frozen = true := frozen_source_shape.1 _ _ 
 theorem layer_effOrder (l : Layer) : l.effOrder = l.order := frozen_source_shape.2.1 _ _ _ _
 theorem layer_effSlots (l : Layer) : l.effSlots = l.slots := frozen_source_shape.2.2.2.1 _ _ _ _
 
-/-! ## immutability -/
+/-! ## immutability
+
+What stands between an assignment / deletion and `object.__setattr__` / `object.__delattr__` is the `__setattr__` / `__delattr__` that
+`dataclass(frozen=True)` generated — as long as the decorator installs no attribute-protocol hook of its own on the class:
+`cfg_no_attr_hooks` is the generated fact that it installs none of `__setattr__`, `__delattr__`, `__getattribute__`, `__getattr__`,
+`__set_name__`, `__set__`, `__delete__`, `__get__`, `__dir__`, `__init_subclass__`; every immutability theorem rests on it (through
+`attrGate_std`), so a decorator that brings its own `__setattr__` breaks them.  Names are arbitrary: a field, a new name, the name of an
+added method (`copy_with`, …), a special method name, `__class__` (`nameClass`), `__dict__` (`nameDict`). -/
+
+/-- **generated fact**: the decorator leaves the attribute protocol of the class alone -/
+theorem cfg_no_attr_hooks : attrProtocolHooks = [] := by decide
+
+/-- … hence assignment and deletion go through the generated frozen `__setattr__` / `__delattr__` chain -/
+theorem attrGate_std (name : Name) (c : Cls) : attrGate name c = frozenWalk name true c := by
+  simp [attrGate, attrProtocolStd, cfg_no_attr_hooks]
 
 def rejected (r : Except Exc Inst) : Bool := match r with | .ok _ => false | .error _ => true
 
@@ -367,7 +381,7 @@ theorem frozen_rejects_set_del_partial (self : Inst) (name : Name) (v : Obj) (hg
             · exact absurd hg hns
           exact ⟨_, frozenWalk_head name l rest hdec⟩
   obtain ⟨e, he⟩ := hw
-  simp [setattr, delattr, he, rejected]
+  simp [setattr, delattr, attrGate_std, he, rejected]
 
 /-- … and the exception is `FrozenInstanceError`, except for a name that is not a field on a class with slots=True
     (there `super(cls, self)` of the generated method refers to the class that `_add_slots` replaced: TypeError) -/
@@ -376,7 +390,7 @@ theorem frozen_error_class (self : Inst) (name : Name) (v : Obj) (l : Layer) (re
     let e := if !l.slots || (fieldNames self.cls).contains name then Exc.frozenInstance else Exc.typeError
     setattr self name v = .error e ∧ delattr self name = .error e := by
   have := frozenWalk_head name l rest hdec
-  simp only [setattr, delattr, hc, this]
+  simp only [setattr, delattr, attrGate_std, hc, this]
   simp
 
 theorem mergeField_names (acc : List FieldR) (f : FieldR) (n : Name) (h : n ∈ acc.map (·.name)) :
@@ -433,7 +447,12 @@ theorem frozen_allows_new_attribute_on_undecorated_subclass (self : Inst) (name 
     simpa using this
   have hd : hasDict self.cls = true := by
     rw [hc]; simp [hasDict, hund]
-  simp [setattr, hw, hnf, hd, rejected]
+  simp only [setattr, attrGate_std, hw]
+  simp only [List.contains_iff_mem, hnf, hd]
+  simp only [Bool.false_eq_true, ↓reduceIte, Bool.not_true]
+  split
+  · simp [rejected]
+  · split <;> simp [rejected]
 
 /-- the instance of the undecorated subclass `class B(A): pass` used as witness: `A` has one field `f0` -/
 def witnessSub : Inst :=
@@ -451,6 +470,31 @@ theorem frozen_rejects_fails_on_undecorated_subclass : ¬ frozen_rejects_set_del
 example : inFrozenGuard witnessSub 100 = false := by decide
 example : inFrozenGuard witnessSub 0 = true ∧ rejected (setattr witnessSub 0 (.atom .none)) = true := by decide
 example : rejected (setattr { witnessSub with cls := witnessSub.cls.drop 1 } 100 (.atom .none)) = true := by decide
+
+/-- **every name** — a field, a new name, the name of an added method, a special method name, `__class__`, `__dict__` — is rejected, for
+    assignment and for deletion, on an instance whose own class is decorated -/
+theorem frozen_head_rejects_every_name (self : Inst) (l : Layer) (rest : Cls) (hc : self.cls = l :: rest) (hdec : l.decorated = true)
+    (name : Name) (v : Obj) : rejected (setattr self name v) = true ∧ rejected (delattr self name) = true :=
+  frozen_rejects_set_del_partial self name v (by simp [inFrozenGuard, hc, hdec])
+
+example : rejected (setattr { witnessSub with cls := witnessSub.cls.drop 1 } nameClass (.atom .none)) = true ∧
+    rejected (setattr { witnessSub with cls := witnessSub.cls.drop 1 } nameDict (.atom .none)) = true ∧
+    rejected (delattr { witnessSub with cls := witnessSub.cls.drop 1 } nameDict) = true ∧
+    rejected (setattr { witnessSub with cls := witnessSub.cls.drop 1 } 200 (.atom .none)) = true := by decide
+
+def raisedBy (r : Except Exc Inst) : Option Exc := match r with | .ok _ => none | .error e => some e
+
+/-- inside the finding region (undecorated subclass, no slots) the names `__class__` and `__dict__` are as assignable as a new name, with
+    their own consequences: after `obj.__class__ = Other` nothing is frozen any more — the field itself can be assigned —, after
+    `obj.__dict__ = {}` the fields are gone; `del obj.__class__` is a TypeError -/
+theorem reclass_unfreezes_on_undecorated_subclass :
+    (match setattr witnessSub nameClass (.atom .none) with
+     | .ok s => rejected (setattr s 0 (.atom (.int 2))) || rejected (delattr s 0)
+     | .error _ => true) = false ∧
+    (match setattr witnessSub nameDict (.atom .none) with
+     | .ok s => s.fields.isEmpty
+     | .error _ => false) = true ∧
+    raisedBy (delattr witnessSub nameClass) = some .typeError := by decide
 
 
 /-! ## the generated `__init__` -/
@@ -956,11 +1000,13 @@ theorem mergeDict_lookup (a b : List (Name × Obj)) (k : Name) :
     size and nesting — including the lists / dicts / sets / objects held by `@frozen_dataclass` instances nested in the field
     value, which `deepcopy` duplicates because the decorator installs no copy-protocol hook: `cfg_no_copy_hooks`), under the
     allocator invariant "every live identity of the receiver is below `n`"; the receiver is what it was. -/
-theorem deep_copy_with_meets_spec (self : Inst) (kw : List (Name × Obj)) (n : Nat)
+theorem deep_copy_with_meets_spec_fresh (self : Inst) (kw : List (Name × Obj)) (n : Nat)
     (hwf : wfCls self.cls = true) (hself : InstOk self) (hkw : specKwValid self.cls kw = true)
     (hlive : ∀ i ∈ self.mutIds, i < n) :
     ∃ out, deepCopyWith self kw n = .ok out ∧ CopyMeets true self kw out.result ∧ out.selfAfter = some self ∧
-      out.journal = postInitEvents self.cls ∧ n ≤ out.next := by
+      out.journal = postInitEvents self.cls ∧ n ≤ out.next ∧
+      (∀ f ∈ fieldsOf self.cls, f.init = true → kw.lookup f.name = none →
+        ∃ r, out.result.fields.lookup f.name = some r ∧ ∀ i ∈ r.mutIds, n ≤ i) := by
   have hnd := wf_nodup _ hwf
   have hkwm := kwValid_mem _ _ hkw
   have hinit_of_kw : ∀ f ∈ fieldsOf self.cls, (kw.lookup f.name).isSome = true → f.init = true := by
@@ -982,7 +1028,7 @@ theorem deep_copy_with_meets_spec (self : Inst) (kw : List (Name × Obj)) (n : N
       rw [mergeDict_lookup]
       obtain ⟨s, m, _, _, h3⟩ := hvals f hf hi
       cases hl : kw.lookup f.name <;> simp [h3])
-  refine ⟨⟨selfAfterOf self, m.inst, m.next, m.journal⟩, ?_, ⟨hcls, ?_⟩, ?_, hj, Nat.le_trans hle1 hnext⟩
+  refine ⟨⟨selfAfterOf self, m.inst, m.next, m.journal⟩, ?_, ⟨hcls, ?_⟩, ?_, hj, Nat.le_trans hle1 hnext, ?_⟩
   · simp [deepCopyWith, runCopy, deepCopyWithBody, hread, instCls, hm, finishCopy]
   · intro f hf
     have hp := hfields f hf
@@ -1012,6 +1058,29 @@ theorem deep_copy_with_meets_spec (self : Inst) (kw : List (Name × Obj)) (n : N
         have hd := wf_initFalse_default _ hwf f hf hi'
         exact dfltPost_seq f _ _ hd ((hself f hf).2 hi') hp
   · simp [selfAfterOf, frozen_source_shape.2.2.2.2.2.2.2]
+  · intro f hf hi hl
+    obtain ⟨s, m0, h1, h2, h3⟩ := hvals f hf hi
+    have hc : (mergeDict cur kw).lookup f.name = some (deepcopy s m0).1 := by rw [mergeDict_lookup, hl, h3]; rfl
+    have hp := hfields f hf
+    unfold FieldPostV at hp
+    simp only [hi, ↓reduceIte, hc] at hp
+    refine ⟨(deepcopy s m0).1, hp, ?_⟩
+    intro i hi1
+    have := (deepcopy_fresh.1 s m0).2 i hi1
+    omega
+
+/-- **C11, deep_copy_with.** Same class; replaced fields hold the objects passed; every other init field holds a value that
+    is structurally equal to the original's and shares **no mutable node with the original instance** (for values of any
+    size and nesting — including what nested `@frozen_dataclass` instances hold), under the allocator invariant "every live
+    identity of the receiver is below `n`"; the receiver is what it was.  (`deep_copy_with_meets_spec_fresh` adds: the mutable
+    nodes of those fields are *new* — above the allocator — hence shared with nothing that existed before the call.) -/
+theorem deep_copy_with_meets_spec (self : Inst) (kw : List (Name × Obj)) (n : Nat)
+    (hwf : wfCls self.cls = true) (hself : InstOk self) (hkw : specKwValid self.cls kw = true)
+    (hlive : ∀ i ∈ self.mutIds, i < n) :
+    ∃ out, deepCopyWith self kw n = .ok out ∧ CopyMeets true self kw out.result ∧ out.selfAfter = some self ∧
+      out.journal = postInitEvents self.cls ∧ n ≤ out.next := by
+  obtain ⟨out, a, b, c, d, e, _⟩ := deep_copy_with_meets_spec_fresh self kw n hwf hself hkw hlive
+  exact ⟨out, a, b, c, d, e⟩
 
 
 /-! ## `==`, `hash`, `<` are those of the tuple of fields -/
@@ -1644,6 +1713,392 @@ theorem valsBelow_mutIds (self : Inst) (n : Nat) (hs : ValsBelow self.fields n) 
       · exact ih (fun kv hkv => hl kv (by simp [hkv])) i hi
   exact this _ hs i hi
 
+/-! ## histories: the copy contract holds for EVERY call, whatever was copied and changed in place before
+
+A frozen instance cannot be re-bound, but the lists / dicts / sets / objects its fields refer to can be changed in place, a shallow copy
+shares them, and the same original can be copied any number of times.  `Hist` / `stepH` / `runH` (Model) run such histories: an in-place
+change is applied by identity to every live instance, a copy method to the receiver's current value.  `cfg_copy_helpers_stateless` is the
+generated fact that no function reachable from `copy_with` / `deep_copy_with` keeps state between calls (no mutable default argument, no
+`global` / `nonlocal`, no shared mutable read, no store outside its locals) — without it the model makes no prediction for a copy step
+(`StepOut.unknown`) and `history_copies_meet_spec` cannot be proved. -/
+
+/-- **generated fact**: the copy methods and the helpers they call keep no state between calls -/
+theorem cfg_copy_helpers_stateless : copyHelpersStateless = true := by decide
+
+theorem allIdsL_append : ∀ (xs ys : List Obj), allIdsL (xs ++ ys) = allIdsL xs ++ allIdsL ys := by
+  intro xs
+  induction xs with
+  | nil => intro ys; simp [allIdsL]
+  | cons x xs ih => intro ys; simp [allIdsL, ih]
+
+theorem allIdsL_set : ∀ (xs : List Obj) (k : Nat) (v : Obj) (i : Nat), i ∈ allIdsL (xs.set k v) → i ∈ allIdsL xs ∨ i ∈ v.allIds := by
+  intro xs
+  induction xs with
+  | nil => intro k v i h; simp [allIdsL] at h
+  | cons x xs ih =>
+    intro k v i h
+    cases k with
+    | zero =>
+      simp only [List.set_cons_zero, allIdsL, List.mem_append] at h ⊢
+      rcases h with h | h
+      · exact Or.inr h
+      · exact Or.inl (Or.inr h)
+    | succ k =>
+      simp only [List.set_cons_succ, allIdsL, List.mem_append] at h ⊢
+      rcases h with h | h
+      · exact Or.inl (Or.inl h)
+      · rcases ih k v i h with h | h
+        · exact Or.inl (Or.inr h)
+        · exact Or.inr h
+
+theorem apply_allIds (m : Mut) (xs : List Obj) (i : Nat) (h : i ∈ allIdsL (m.apply xs)) : i ∈ allIdsL xs ∨ i ∈ allIdsL m.vals := by
+  cases m with
+  | push ys => simpa [Mut.apply, Mut.vals, allIdsL_append] using h
+  | setAt k v =>
+    rcases allIdsL_set xs k v i (by simpa [Mut.apply] using h) with h | h
+    · exact Or.inl h
+    · exact Or.inr (by simp [Mut.vals, allIdsL, h])
+  | clear => simp [Mut.apply, allIdsL] at h
+
+/-- an in-place change brings no identity into a value but those of the objects it stores -/
+theorem mutate_allIds (t : Nat) (m : Mut) :
+    (∀ (o : Obj) (i : Nat), i ∈ (o.mutate t m).allIds → i ∈ o.allIds ∨ i ∈ allIdsL m.vals) ∧
+    (∀ (os : List Obj) (i : Nat), i ∈ allIdsL (mutateL t m os) → i ∈ allIdsL os ∨ i ∈ allIdsL m.vals) := by
+  apply Obj.allIds.mutual_induct (motive_1 := fun o => ∀ i, i ∈ (o.mutate t m).allIds → i ∈ o.allIds ∨ i ∈ allIdsL m.vals)
+    (motive_2 := fun os => ∀ i, i ∈ allIdsL (mutateL t m os) → i ∈ allIdsL os ∨ i ∈ allIdsL m.vals)
+  · intro a i h; simp [Obj.mutate, Obj.allIds] at h
+  · intro id items ih i h
+    simp only [Obj.mutate, Obj.allIds, List.mem_cons] at h ⊢
+    rcases h with h | h
+    · exact Or.inl (Or.inl h)
+    · rcases ih i h with h | h
+      · exact Or.inl (Or.inr h)
+      · exact Or.inr h
+  · intro k id items ih i h
+    simp only [Obj.mutate] at h
+    split at h
+    · simp only [Obj.allIds, List.mem_cons] at h ⊢
+      rcases h with h | h
+      · exact Or.inl (Or.inl h)
+      · rcases apply_allIds m _ i h with h | h
+        · rcases ih i h with h | h
+          · exact Or.inl (Or.inr h)
+          · exact Or.inr h
+        · exact Or.inr h
+    · simp only [Obj.allIds, List.mem_cons] at h ⊢
+      rcases h with h | h
+      · exact Or.inl (Or.inl h)
+      · rcases ih i h with h | h
+        · exact Or.inl (Or.inr h)
+        · exact Or.inr h
+  · intro i h; simp [mutateL, allIdsL] at h
+  · intro x xs ih1 ih2 i h
+    simp only [mutateL, allIdsL, List.mem_append] at h ⊢
+    rcases h with h | h
+    · rcases ih1 i h with h | h
+      · exact Or.inl (Or.inl h)
+      · exact Or.inr h
+    · rcases ih2 i h with h | h
+      · exact Or.inl (Or.inr h)
+      · exact Or.inr h
+
+/-- a value that does not contain the object is not affected by its change -/
+theorem mutate_of_not_mem (t : Nat) (m : Mut) :
+    (∀ o : Obj, t ∉ o.allIds → o.mutate t m = o) ∧ (∀ os : List Obj, t ∉ allIdsL os → mutateL t m os = os) := by
+  apply Obj.allIds.mutual_induct (motive_1 := fun o => t ∉ o.allIds → o.mutate t m = o)
+    (motive_2 := fun os => t ∉ allIdsL os → mutateL t m os = os)
+  · intro a _; simp [Obj.mutate]
+  · intro id items ih h
+    simp only [Obj.allIds, List.mem_cons, not_or] at h
+    simp [Obj.mutate, ih h.2]
+  · intro k id items ih h
+    simp only [Obj.allIds, List.mem_cons, not_or] at h
+    have : (id == t) = false := by simpa using fun e => h.1 e.symm
+    simp [Obj.mutate, this, ih h.2]
+  · intro _; simp [mutateL]
+  · intro x xs ih1 ih2 h
+    simp only [allIdsL, List.mem_append, not_or] at h
+    simp [mutateL, ih1 h.1, ih2 h.2]
+
+theorem lookup_mutFields (t : Nat) (m : Mut) : ∀ (l : List (Name × Obj)) (k : Name),
+    (mutFields t m l).lookup k = (l.lookup k).map (Obj.mutate t m) := by
+  intro l
+  induction l with
+  | nil => intro k; simp [mutFields]
+  | cons a l ih =>
+    intro k
+    obtain ⟨k0, v⟩ := a
+    by_cases hk : k = k0
+    · subst hk; simp [mutFields]
+    · have : (k == k0) = false := by simpa using hk
+      have ih' := ih k
+      simp only [mutFields] at ih' ⊢
+      simp [List.lookup_cons, this, ih']
+
+theorem valsBelow_mutFields (t : Nat) (m : Mut) (l : List (Name × Obj)) (n : Nat) (hl : ValsBelow l n)
+    (hm : ∀ i ∈ allIdsL m.vals, i < n) : ValsBelow (mutFields t m l) n := by
+  intro kv hkv i hi
+  simp only [mutFields, List.mem_map] at hkv
+  obtain ⟨kv0, hm0, rfl⟩ := hkv
+  rcases (mutate_allIds t m).1 kv0.2 i hi with h | h
+  · exact hl kv0 hm0 i h
+  · exact hm i h
+
+/-- the guard under which a history stays inside what the copy contract speaks about: the changed object is not (part of) the value of an
+    `init=False` field — such a field is recomputed by `__init__`, a copy does not carry the change -/
+def mutSafe (inst : Inst) (t : Nat) : Bool :=
+  (fieldsOf inst.cls).all (fun f => f.init || (match inst.fields.lookup f.name with | some v => !(v.allIds.contains t) | none => true))
+
+theorem instOk_mutate (inst : Inst) (t : Nat) (m : Mut) (hok : InstOk inst) (hs : mutSafe inst t = true) : InstOk (inst.mutate t m) := by
+  intro f hf
+  have hf' : f ∈ fieldsOf inst.cls := hf
+  have hlk : (inst.mutate t m).fields.lookup f.name = (inst.fields.lookup f.name).map (Obj.mutate t m) := lookup_mutFields t m _ _
+  constructor
+  · intro hi
+    rw [hlk]
+    have := (hok f hf').1 hi
+    cases hl : inst.fields.lookup f.name with
+    | none => simp [hl] at this
+    | some v => simp
+  · intro hi
+    rw [hlk]
+    have hd := (hok f hf').2 hi
+    have hsf := List.all_eq_true.mp hs f hf'
+    simp only [hi, Bool.false_or] at hsf
+    cases hl : inst.fields.lookup f.name with
+    | none => simpa [hl] using hd
+    | some v =>
+      simp only [hl] at hsf hd ⊢
+      have hnm : t ∉ v.allIds := by simpa using hsf
+      simpa [(mutate_of_not_mem t m).1 v hnm] using hd
+
+theorem construct_extra (c : Cls) (pos : List Obj) (kw : List (Name × Obj)) (n : Nat) (m : Made)
+    (h : construct c pos kw n = .ok m) : m.inst.extra = [] := by
+  simp only [construct] at h
+  split at h
+  · cases h
+  · split at h
+    · cases h
+    · split at h
+      · cases h
+      · cases h; rfl
+
+/-- what a copy method returns was made by the constructor of the receiver's class -/
+theorem copyWith_constructed (self : Inst) (kw : List (Name × Obj)) (n : Nat) (out : CopyOut) (h : copyWith self kw n = .ok out) :
+    ∃ ch n0, construct self.cls [] ch n0 = .ok ⟨out.result, out.next, out.journal⟩ := by
+  simp only [copyWith, runCopy, copyWithBody] at h
+  cases hr : replaceChanges self (fieldsOf self.cls) kw with
+  | error e => simp [hr] at h
+  | ok ch' =>
+    cases hcon : construct self.cls [] ch' n with
+    | error e => simp [hr, hcon, finishCopy] at h
+    | ok m =>
+      simp [hr, hcon, finishCopy] at h
+      subst h
+      exact ⟨ch', n, hcon⟩
+
+theorem deepCopyWith_constructed (self : Inst) (kw : List (Name × Obj)) (n : Nat) (out : CopyOut) (h : deepCopyWith self kw n = .ok out) :
+    ∃ ch n0, construct self.cls [] ch n0 = .ok ⟨out.result, out.next, out.journal⟩ := by
+  simp only [deepCopyWith, runCopy, deepCopyWithBody] at h
+  cases hr : readCur true true self (fieldsOf self.cls) n with
+  | error e => simp [hr] at h
+  | ok p =>
+    obtain ⟨cur, n1⟩ := p
+    cases hcon : construct self.cls [] (mergeDict cur kw) n1 with
+    | error e => simp [hr, hcon, finishCopy, instCls] at h
+    | ok m =>
+      simp [hr, hcon, finishCopy, instCls] at h
+      subst h
+      exact ⟨_, n1, hcon⟩
+
+/-- the invariant of a history: every live instance is a well-formed instance as `__init__` leaves it, and everything it refers to —
+    and every default of its class — lies below the allocator -/
+structure HistOk (h : Hist) : Prop where
+  wf : ∀ inst ∈ h.insts, wfCls inst.cls = true
+  ok : ∀ inst ∈ h.insts, InstOk inst
+  below : ∀ inst ∈ h.insts, ValsBelow inst.fields h.next
+  noExtra : ∀ inst ∈ h.insts, inst.extra = []
+  clsBelow : ∀ inst ∈ h.insts, ∀ i ∈ clsIds inst.cls, i < h.next
+
+/-- what a step may be: keyword objects and stored objects exist already (below the allocator); the changed object is not below an
+    `init=False` field.  Nothing else: any receiver, any keywords (valid or not), any object, any change. -/
+def StepValid (h : Hist) : Step → Prop
+  | .copy _ kw _ => ValsBelow kw h.next
+  | .change t m => (∀ i ∈ allIdsL m.vals, i < h.next) ∧ ∀ inst ∈ h.insts, mutSafe inst t = true
+
+def HistValid : Hist → List Step → Prop
+  | _, [] => True
+  | h, s :: rest => StepValid h s ∧ HistValid (stepH h s).1 rest
+
+/-- what the property demands of one step of a history, whatever happened before: a copy method applied to a live instance returns a
+    copy that meets the copy contract **with respect to the receiver as it is at that moment**, leaves the receiver as it is, and — deep —
+    its un-replaced fields share no mutable node with ANY instance alive at that moment (the original, every earlier copy);
+    keywords that name no init field make it raise -/
+def GoodStep (h : Hist) : Step → StepOut → Prop
+  | .copy deep kw on, out =>
+    match h.insts[on]? with
+    | none => out = .noInst
+    | some self =>
+      if specKwValid self.cls kw = true then
+        ∃ o, out = .copied self o ∧ CopyMeets deep self kw o.result ∧ o.selfAfter = some self ∧ o.journal = postInitEvents self.cls ∧
+          (deep = true → ∀ f ∈ fieldsOf self.cls, f.init = true → kw.lookup f.name = none →
+            ∃ r, o.result.fields.lookup f.name = some r ∧ ∀ i ∈ r.mutIds, i ∉ h.mutIds)
+      else ∃ e, out = .raised e
+  | .change _ _, out => out = .mutated
+
+theorem hist_mutIds_below (h : Hist) (hok : HistOk h) : ∀ i ∈ h.mutIds, i < h.next := by
+  intro i hi
+  simp only [Hist.mutIds, List.mem_flatMap] at hi
+  obtain ⟨inst, hm, hi⟩ := hi
+  exact valsBelow_mutIds inst h.next (hok.below inst hm) (hok.noExtra inst hm) i hi
+
+theorem histOk_append (h : Hist) (hok : HistOk h) (self : Inst) (hself : self ∈ h.insts) (out : CopyOut) (hle : h.next ≤ out.next)
+    (hcon : ∃ ch n0, construct self.cls [] ch n0 = .ok ⟨out.result, out.next, out.journal⟩)
+    (hb : ValsBelow out.result.fields out.next) : HistOk ⟨h.insts ++ [out.result], out.next⟩ := by
+  obtain ⟨ch, n0, hcon⟩ := hcon
+  have hwf := hok.wf self hself
+  obtain ⟨hio, hcls, _⟩ := construct_instOk _ _ _ _ _ hwf hcon
+  have hex := construct_extra _ _ _ _ _ hcon
+  simp only at hio hcls hex
+  constructor
+  · intro inst hm
+    simp only [List.mem_append, List.mem_singleton] at hm
+    rcases hm with hm | rfl
+    · exact hok.wf inst hm
+    · rw [hcls]; exact hwf
+  · intro inst hm
+    simp only [List.mem_append, List.mem_singleton] at hm
+    rcases hm with hm | rfl
+    · exact hok.ok inst hm
+    · exact hio
+  · intro inst hm
+    simp only [List.mem_append, List.mem_singleton] at hm
+    rcases hm with hm | rfl
+    · exact (hok.below inst hm).mono hle
+    · exact hb
+  · intro inst hm
+    simp only [List.mem_append, List.mem_singleton] at hm
+    rcases hm with hm | rfl
+    · exact hok.noExtra inst hm
+    · exact hex
+  · intro inst hm i hi
+    simp only [List.mem_append, List.mem_singleton] at hm
+    rcases hm with hm | rfl
+    · exact Nat.lt_of_lt_of_le (hok.clsBelow inst hm i hi) hle
+    · rw [hcls] at hi; exact Nat.lt_of_lt_of_le (hok.clsBelow self hself i hi) hle
+
+/-- one step: the property holds for it and the invariant is re-established -/
+theorem stepH_good (h : Hist) (s : Step) (hok : HistOk h) (hv : StepValid h s) : GoodStep h s (stepH h s).2 ∧ HistOk (stepH h s).1 := by
+  cases s with
+  | change t m =>
+    obtain ⟨hm, hsafe⟩ := hv
+    refine ⟨rfl, ?_⟩
+    simp only [stepH]
+    constructor
+    · intro inst hi
+      obtain ⟨i0, h0, rfl⟩ := List.mem_map.mp hi
+      exact hok.wf i0 h0
+    · intro inst hi
+      obtain ⟨i0, h0, rfl⟩ := List.mem_map.mp hi
+      exact instOk_mutate i0 t m (hok.ok i0 h0) (hsafe i0 h0)
+    · intro inst hi
+      obtain ⟨i0, h0, rfl⟩ := List.mem_map.mp hi
+      exact valsBelow_mutFields t m _ _ (hok.below i0 h0) hm
+    · intro inst hi
+      obtain ⟨i0, h0, rfl⟩ := List.mem_map.mp hi
+      simp [Inst.mutate, mutFields, hok.noExtra i0 h0]
+    · intro inst hi
+      obtain ⟨i0, h0, rfl⟩ := List.mem_map.mp hi
+      exact hok.clsBelow i0 h0
+  | copy deep kw on =>
+    have hkwb : ValsBelow kw h.next := hv
+    cases hget : h.insts[on]? with
+    | none => simp [stepH, GoodStep, hget, hok]
+    | some self =>
+      have hself : self ∈ h.insts := List.mem_of_getElem? hget
+      have hwf := hok.wf self hself
+      have hio := hok.ok self hself
+      have hlive : ∀ i ∈ self.mutIds, i < h.next := valsBelow_mutIds self h.next (hok.below self hself) (hok.noExtra self hself)
+      by_cases hvalid : specKwValid self.cls kw = true
+      · cases deep with
+        | true =>
+          obtain ⟨out, h1, h2, h3, h4, h5, h6⟩ := deep_copy_with_meets_spec_fresh self kw h.next hwf hio hvalid hlive
+          have hst : stepH h (.copy true kw on) = (⟨h.insts ++ [out.result], out.next⟩, .copied self out) := by
+            simp [stepH, hget, cfg_copy_helpers_stateless, h1]
+          rw [hst]
+          refine ⟨?_, ?_⟩
+          · simp only [GoodStep, hget, hvalid, ↓reduceIte]
+            refine ⟨out, rfl, h2, h3, h4, ?_⟩
+            intro _ f hf hi hl
+            obtain ⟨r, hr, hfresh⟩ := h6 f hf hi hl
+            refine ⟨r, hr, ?_⟩
+            intro i hir him
+            have := hfresh i hir
+            have := hist_mutIds_below h hok i him
+            omega
+          · exact histOk_append h hok self hself out h5 (deepCopyWith_constructed self kw h.next out h1)
+              (deep_copy_with_live self kw h.next out h1 (hok.clsBelow self hself) (hok.below self hself) hkwb).2
+        | false =>
+          obtain ⟨out, h1, h2, h3, h4, h5⟩ := copy_with_meets_spec self kw h.next hwf hio hvalid
+          have hst : stepH h (.copy false kw on) = (⟨h.insts ++ [out.result], out.next⟩, .copied self out) := by
+            simp [stepH, hget, cfg_copy_helpers_stateless, h1]
+          rw [hst]
+          refine ⟨?_, ?_⟩
+          · simp only [GoodStep, hget, hvalid, ↓reduceIte]
+            exact ⟨out, rfl, h2, h3, h4, by intro hd; cases hd⟩
+          · exact histOk_append h hok self hself out h5 (copyWith_constructed self kw h.next out h1)
+              (copy_with_live self kw h.next out h1 (hok.clsBelow self hself) (hok.below self hself) hkwb).2
+      · have hvalid' : specKwValid self.cls kw = false := by simpa using hvalid
+        cases deep with
+        | true =>
+          obtain ⟨e, he⟩ := deep_copy_with_rejects_bad_kw self kw h.next hvalid'
+          have hst : stepH h (.copy true kw on) = (h, .raised e) := by
+            simp [stepH, hget, cfg_copy_helpers_stateless, he]
+          rw [hst]
+          exact ⟨by simp only [GoodStep, hget, hvalid']; exact ⟨e, rfl⟩, hok⟩
+        | false =>
+          obtain ⟨e, he⟩ := copy_with_rejects_bad_kw self kw h.next hvalid'
+          have hst : stepH h (.copy false kw on) = (h, .raised e) := by
+            simp [stepH, hget, cfg_copy_helpers_stateless, he]
+          rw [hst]
+          exact ⟨by simp only [GoodStep, hget, hvalid']; exact ⟨e, rfl⟩, hok⟩
+
+/-- **C11 along histories.**  Start from live instances that meet the invariant; run ANY sequence of `copy_with` / `deep_copy_with` calls
+    (on the original or on any earlier copy, with any keywords) and in-place changes of the lists / dicts / sets / objects that the
+    fields refer to (any object, any change, as long as it is not below an `init=False` field).  Then at EVERY copy step the copy
+    contract holds w.r.t. the receiver's **current** value, the receiver is left as it is, and the un-replaced fields of a deep copy
+    share no mutable node with any instance that is alive at that moment — the second, third, … deep copy of the same original is as
+    fresh and as right as the first.  Rests on `cfg_copy_helpers_stateless` (the copy methods keep no state between calls). -/
+theorem history_copies_meet_spec : ∀ (steps : List Step) (h : Hist), HistOk h → HistValid h steps →
+    ∀ t ∈ runH h steps, GoodStep t.1 t.2.1 t.2.2 ∧ HistOk t.1 := by
+  intro steps
+  induction steps with
+  | nil => intro h _ _ t ht; simp [runH] at ht
+  | cons s rest ih =>
+    intro h hok hv t ht
+    obtain ⟨hv1, hv2⟩ := hv
+    obtain ⟨hg, hok'⟩ := stepH_good h s hok hv1
+    simp only [runH, List.mem_cons] at ht
+    rcases ht with rfl | ht
+    · exact ⟨hg, hok⟩
+    · exact ih _ hok' hv2 t ht
+
+instance (l : List (Name × Obj)) (n : Nat) : Decidable (ValsBelow l n) :=
+  inferInstanceAs (Decidable (∀ kv ∈ l, ∀ i ∈ kv.2.allIds, i < n))
+
+instance (h : Hist) : (s : Step) → Decidable (StepValid h s)
+  | .copy _ kw _ => inferInstanceAs (Decidable (ValsBelow kw h.next))
+  | .change t m => inferInstanceAs (Decidable ((∀ i ∈ allIdsL m.vals, i < h.next) ∧ ∀ inst ∈ h.insts, mutSafe inst t = true))
+
+def HistValid.dec : (steps : List Step) → (h : Hist) → Decidable (HistValid h steps)
+  | [], _ => isTrue trivial
+  | s :: rest, h =>
+    have := HistValid.dec rest (stepH h s).1
+    inferInstanceAs (Decidable (StepValid h s ∧ HistValid (stepH h s).1 rest))
+
+instance (h : Hist) (steps : List Step) : Decidable (HistValid h steps) := HistValid.dec steps h
+
+
 /-! ## non-vacuity: a concrete hierarchy with nested mutable values meets the hypotheses; what the theorems say about it;
     and how the *other* shapes a copy method could have violate the contract on the model -/
 
@@ -1759,5 +2214,39 @@ example : lexLt [.atom (.int 1)] [.atom .none] = none := by decide
 example : (ltOp ⟨[⟨2, true, false, false, true, false, false, [⟨5, .none, true, true⟩]⟩, exA], [(0, .atom (.int 1)), (1, .atom .none), (2, .atom (.int 5)), (5, .atom (.int 9))], []⟩
                 ⟨[⟨2, true, false, false, true, false, false, [⟨5, .none, true, true⟩]⟩, exA], [(0, .atom (.int 1)), (1, .atom .none), (2, .atom (.int 5)), (5, .atom (.int 0))], []⟩).toOption
     = some false := by decide
+
+/-! ### non-vacuity: a history on `exInst` (field 0 = `[{'a': [1]}, (None, set())]`, identities 10..14) -/
+
+/-- deep copy; append to the inner list 12 *of the original*; deep copy again (field 1 replaced); shallow copy; clear the outer list 10
+    (shared by the original and the shallow copy); deep copy of the shallow copy; change the *first deep copy's* dict; deep copy the original again -/
+def exHist : List Step :=
+  [.copy true [] 0, .change 12 (.push [.atom (.int 9)]), .copy true [(1, .atom .none)] 0, .copy false [] 0, .change 10 .clear,
+   .copy true [] 3, .change 31 (.push [.atom (.str [122]), .atom (.int 0)]), .copy true [] 0]
+
+def endOf (h : Hist) (steps : List Step) : Hist := steps.foldl (fun h s => (stepH h s).1) h
+def histField (h : Hist) (k : Nat) (f : Name) : Option Obj := (h.insts[k]?).bind (fun i => i.fields.lookup f)
+
+theorem exHist_ok : HistOk ⟨[exInst], 30⟩ where
+  wf := by intro inst hm; simp only [List.mem_singleton] at hm; subst hm; decide
+  ok := by intro inst hm; simp only [List.mem_singleton] at hm; subst hm; exact (construct_instOk _ _ _ _ _ (by decide) exInst_constructed).1
+  below := by intro inst hm; simp only [List.mem_singleton] at hm; subst hm; decide
+  noExtra := by intro inst hm; simp only [List.mem_singleton] at hm; subst hm; rfl
+  clsBelow := by intro inst hm; simp only [List.mem_singleton] at hm; subst hm; decide
+
+theorem exHist_valid : HistValid ⟨[exInst], 30⟩ exHist := by decide
+-- the theorem applies to it: every step is good, the invariant holds all along
+example : ∀ t ∈ runH ⟨[exInst], 30⟩ exHist, GoodStep t.1 t.2.1 t.2.2 ∧ HistOk t.1 := history_copies_meet_spec exHist _ exHist_ok exHist_valid
+-- what it looks like: six live instances at the end; the deep copies (1, 2, 4, 5) hold new nodes only, the shallow copy (3) the original's
+example : (endOf ⟨[exInst], 30⟩ exHist).insts.map (fun i => i.fields.map (fun kv => (kv.1, kv.2.mutIds))) =
+    [[(0, [10]), (1, [20, 21]), (2, [])], [(0, [30, 31, 32, 33]), (1, [35, 36]), (2, [])], [(0, [37, 38, 39, 40]), (1, []), (2, [])],
+     [(0, [10]), (1, [20, 21]), (2, [])], [(0, [44]), (1, [45, 46]), (2, [])], [(0, [47]), (1, [48, 49]), (2, [])]] := by decide
+-- the second deep copy (instance 2) carries the change made to the original after the first one (the 9 appended to list 12), the first does not
+example : ((histField (endOf ⟨[exInst], 30⟩ exHist) 2 0).map (fun v => v.seq (.box .list 0 [.box .dict 0 [.atom (.str [97]), .box .list 0 [.atom (.int 1), .atom (.int 9)]], .tup 0 [.atom .none, .box .set 0 []]])),
+          (histField (endOf ⟨[exInst], 30⟩ exHist) 1 0).map (fun v => v.seq (.box .list 0 [.box .dict 0 [.atom (.str [97]), .box .list 0 [.atom (.int 1)], .atom (.str [122]), .atom (.int 0)], .tup 0 [.atom .none, .box .set 0 []]])))
+    = (some true, some true) := by decide
+-- the last deep copy of the original (instance 5) equals the original as it is THEN (cleared), not the first copy
+example : (histField (endOf ⟨[exInst], 30⟩ exHist) 5 0).map Obj.mutIds = some [47] ∧
+    (histField (endOf ⟨[exInst], 30⟩ exHist) 0 0).map Obj.mutIds = some [10] := by decide
+
 
 end PedVerif.Frozen
